@@ -585,6 +585,212 @@ func (c *Ctx) pipeHolders() {
 	if n < 4 {
 		c.S.Undecided("C04", "PIPE-HOLDERS", "floor", "-", fmt.Sprintf("only %d entry-point/switch-kind pairs found in the rewriters (confirmed by hand: 7)", n))
 	}
+	// Schemas held through a pointer member (read from the types of go-openapi/spec: every field of type *spec.Schema):
+	// an entry point whose `case *spec.Schema` does not write through the pointer it was given delegates to the
+	// switch over the parent, which then needs a case for every owner of such a member — or the value case
+	// handles that member in place, selected by its json name. (Defect F25: "not" had neither.)
+	owners := c.pointerHeldSchemaOwners()
+	m := 0
+	for _, entry := range replFuncs {
+		if !entry.Obj.Exported() {
+			continue
+		}
+		// rewriters only: they report nothing but an error (the resolvers of the package return what they found)
+		if res := entry.Obj.Type().(*types.Signature).Results(); res.Len() != 1 || !core.IsErrorType(res.At(0).Type()) {
+			continue
+		}
+		info := c.info(entry)
+		var clause *ast.CaseClause
+		var swVar types.Object
+		ast.Inspect(entry.Decl.Body, func(nd ast.Node) bool {
+			ts, ok := nd.(*ast.TypeSwitchStmt)
+			if !ok {
+				return true
+			}
+			for _, cl := range ts.Body.List {
+				cc := cl.(*ast.CaseClause)
+				for _, t := range cc.List {
+					if types.TypeString(info.TypeOf(t), func(p *types.Package) string { return p.Name() }) == "*spec.Schema" && len(cc.List) == 1 {
+						clause = cc
+						swVar = info.Implicits[cc]
+					}
+				}
+			}
+			return true
+		})
+		if clause == nil {
+			continue
+		}
+		// does the clause write through the switch variable on its fall-through path, and under which name tests?
+		writesThrough := func(list []ast.Stmt) bool {
+			for _, st := range list {
+				as, ok := st.(*ast.AssignStmt)
+				if !ok {
+					continue
+				}
+				for _, l := range as.Lhs {
+					l = core.Unparen(l)
+					if st, isStar := l.(*ast.StarExpr); isStar && core.ObjOf(info, st.X) == swVar && swVar != nil {
+						return true
+					}
+					if sel, isSel := l.(*ast.SelectorExpr); isSel && core.ObjOf(info, sel.X) == swVar && swVar != nil {
+						return true
+					}
+				}
+			}
+			return false
+		}
+		all := writesThrough(clause.Body)
+		inPlace := map[string]bool{}
+		for _, st := range clause.Body {
+			ifs, ok := st.(*ast.IfStmt)
+			if !ok || !writesThrough(ifs.Body.List) {
+				continue
+			}
+			ast.Inspect(ifs.Cond, func(nd ast.Node) bool {
+				if bl, ok := nd.(*ast.BasicLit); ok && bl.Kind == token.STRING {
+					if v, isC := core.ConstString(info, bl); isC {
+						inPlace[strings.TrimPrefix(v, "/")] = true
+					}
+				}
+				return true
+			})
+		}
+		union := map[string]bool{}
+		for g := range c.P.Reachable(entry) {
+			for _, sws := range switches[g] {
+				if sws.kind == "parent" {
+					for k := range sws.cases {
+						union[k] = true
+					}
+				}
+			}
+		}
+		for _, ow := range owners {
+			m++
+			ok := all || inPlace[ow.tag] || union["*spec."+ow.owner] || union["spec."+ow.owner]
+			c.S.Decide(ok, "C04", "PIPE-HOLDERS", entry.QName()+"/pointer-held "+ow.owner+"."+ow.tag, c.P.Pos(clause.Pos()),
+				"a schema held by "+ow.owner+" through its pointer member '"+ow.tag+"' is rewritten (in place, or by a case for its owner in the parent switch)",
+				"a key designating the schema under '"+ow.tag+"' of a "+ow.owner+" reaches `case *spec.Schema`, which neither writes through the pointer nor finds a case for "+ow.owner+" in the switch over the parent: a valid key of this shape makes Flatten fail (unhandled parent)")
+		}
+	}
+	if m < 6 {
+		c.S.Undecided("C04", "PIPE-HOLDERS", "floor-pointer-held", "-", fmt.Sprintf("only %d (entry point, pointer-held member) pairs found (confirmed by hand: 9 = 3 entry points x Parameter.schema, Response.schema, Schema.not)", m))
+	}
+}
+
+type heldOwner struct{ owner, tag string }
+
+// pointerHeldSchemaOwners lists, from the types of go-openapi/spec, the (struct, json name) pairs of members of type
+// *spec.Schema, attributed to the outermost struct that embeds them; the two wrappers that JSON pointers see through
+// (SchemaOrArray, SchemaOrBool: the key designates the wrapper itself) are left out.
+func (c *Ctx) pointerHeldSchemaOwners() []heldOwner {
+	sp, _ := c.P.SpecStruct("Swagger")
+	if sp == nil {
+		return nil
+	}
+	scope := sp.Obj().Pkg().Scope()
+	embedded := map[string]bool{}
+	structs := map[string]*types.Struct{}
+	for _, name := range scope.Names() {
+		tn, ok := scope.Lookup(name).(*types.TypeName)
+		if !ok {
+			continue
+		}
+		st, ok := tn.Type().Underlying().(*types.Struct)
+		if !ok {
+			continue
+		}
+		structs[name] = st
+		for i := 0; i < st.NumFields(); i++ {
+			if st.Field(i).Embedded() {
+				if _, en := core.NamedOf(st.Field(i).Type()); en != "" {
+					embedded[en] = true
+				}
+			}
+		}
+	}
+	var out []heldOwner
+	var collect func(owner string, st *types.Struct, depth int)
+	collect = func(owner string, st *types.Struct, depth int) {
+		if depth > 3 {
+			return
+		}
+		for i := 0; i < st.NumFields(); i++ {
+			f := st.Field(i)
+			if f.Embedded() {
+				if est, ok := core.Deref(f.Type()).Underlying().(*types.Struct); ok {
+					collect(owner, est, depth+1)
+				}
+				continue
+			}
+			if core.IsPointer(f.Type()) && core.IsSpecType(f.Type(), "Schema") {
+				if tag := core.JSONTag(st, i); tag != "" {
+					out = append(out, heldOwner{owner, tag})
+				}
+			}
+		}
+	}
+	// the structs of the document model: reachable from Swagger through fields, elements and embedded structs
+	inModel := map[string]bool{}
+	var visit func(t types.Type, depth int)
+	var visitFields func(u *types.Struct, depth int)
+	visit = func(t types.Type, depth int) {
+		if depth > 12 {
+			return
+		}
+		switch u := t.(type) {
+		case *types.Pointer:
+			visit(u.Elem(), depth+1)
+			return
+		case *types.Slice:
+			visit(u.Elem(), depth+1)
+			return
+		case *types.Map:
+			visit(u.Elem(), depth+1)
+			return
+		}
+		pk, name := core.NamedOf(t)
+		if name == "" || pk != sp.Obj().Pkg().Path() {
+			if n, ok := t.(*types.Named); ok {
+				visit(n.Underlying(), depth+1)
+			}
+			return
+		}
+		if inModel[name] {
+			return
+		}
+		inModel[name] = true
+		switch u := t.Underlying().(type) {
+		case *types.Struct:
+			visitFields(u, depth+1)
+		default:
+			visit(u, depth+1)
+		}
+	}
+	// an embedded struct contributes its members to the embedding one and is no owner by itself
+	visitFields = func(u *types.Struct, depth int) {
+		for i := 0; i < u.NumFields() && depth <= 12; i++ {
+			if est, ok := core.Deref(u.Field(i).Type()).Underlying().(*types.Struct); ok && u.Field(i).Embedded() {
+				visitFields(est, depth+1)
+				continue
+			}
+			visit(u.Field(i).Type(), depth+1)
+		}
+	}
+	visit(sp, 0)
+	names := make([]string, 0, len(structs))
+	for n := range structs {
+		names = append(names, n)
+	}
+	sort.Strings(names)
+	for _, n := range names {
+		if !inModel[n] || n == "SchemaOrArray" || n == "SchemaOrBool" {
+			continue
+		}
+		collect(n, structs[n], 0)
+	}
+	return out
 }
 
 // uniqRules (C03): membership of a candidate name in the definitions is always tested case-insensitively.
